@@ -414,9 +414,11 @@ fn read_case(len: usize, rc: bool, compressed: bool) {
 			assert!(v.len() == len, "C06.S2 length read back");
 			assert!(c == compressed, "C06.S2 compressed flag read back");
 			assert!(r == if rc { counter } else { 1 }, "C06.S2 reference count read back");
-			let i: usize = kani::any();
-			kani::assume(i < len);
-			assert!(v[i] == value[i], "C06.S2 value bytes read back bit-exact");
+			if len > 0 {
+				let i: usize = kani::any();
+				kani::assume(i < len);
+				assert!(v[i] == value[i], "C06.S2 value bytes read back bit-exact");
+			}
 			std::mem::forget(v);
 		},
 		None => assert!(false, "C06.S2 stored value is found"),
@@ -805,9 +807,11 @@ fn c14_t0_init_free_stack_matches_disk_list() {
 	t.init_table_data().unwrap();
 	let stack = free_stack_of(&t);
 	assert!(stack.len() == n, "C14.T0 free stack has one entry per free slot");
-	let j: usize = kani::any();
-	kani::assume(j < n);
-	assert!(stack[n - 1 - j] == list[j], "C14.T0 free stack mirrors the on-disk list (head on top)");
+	if n > 0 {
+		let j: usize = kani::any();
+		kani::assume(j < n);
+		assert!(stack[n - 1 - j] == list[j], "C14.T0 free stack mirrors the on-disk list (head on top)");
+	}
 	// and claiming pops in list order
 	if n >= 1 {
 		let got = t.claim_entries(1).unwrap();
